@@ -16,7 +16,9 @@ Oracle: every operation carries the key the generator built it from; the real re
 object `table[Z][A].ion[q]`, report exactly that key, or raise for an invalid key.
 Real-code-only probes (no model counterpart): numeric charge keys, negative keys, atoms of a dropped
 table, pickle data taken before and loaded after further lookups on the same atom (`stale_pickles`),
-and identity between two lookups while the caller holds no reference (`identity_over_time`).
+identity between two lookups while the caller holds no reference (`identity_over_time`), and a private table
+whose names and oxidation states were rebound after it was built: its keys are the atoms' current `name` /
+`ions` (`revised_tables`).
 """
 from __future__ import annotations
 
@@ -804,6 +806,121 @@ def identity_over_time(run: Run, pt, base, tables):
                           dict(kind="identity-over-time", table=label), route="identity-over-time")
 
 
+def _look(fn):
+    try:
+        return ("obj", fn())
+    except Exception as e:  # noqa: the property only says "raises"
+        return ("err", type(e).__name__)
+
+
+def _says(o):
+    if o[0] == "err":
+        return "raised " + o[1]
+    x = o[1]
+    return "returned %r (Z=%s, A=%s, charge=%s, name=%r)" % (x, getattr(x, "number", None), getattr(x, "isotope", None),
+                                                          getattr(x, "charge", None), getattr(x, "name", None))
+
+
+def revise_one(run: Run, tbl, public, z, new_name, new_ions, candidates, label="private"):
+    """one element of a private table whose name and oxidation states are rebound after the table was built
+    (what a private table is for).  The keys of that table are then the atoms' *current* name / ions: lookup by
+    the new name returns the atom (and its name is the key), the old name - no atom's name any more - raises,
+    `.ion[q]` on the element and on its isotopes returns the single ion of charge q for every q of the revised
+    `ions` and raises for every other charge (none of them was looked up before the revision).
+    z = 1 also renames the two named isotopes D and T.  Returns the number of failures."""
+    import pickle
+    nbad = 0
+
+    def bad(what, **inp):
+        nonlocal nbad
+        nbad += 1
+        if nbad <= _CAP:
+            run.violation(what, dict(kind="revised-table", table=label, z=z, new_name=new_name, new_ions=list(new_ions),
+                                     candidates=list(candidates), **inp), route="revised-table")
+    try:
+        el = tbl[z]
+        renames = [(el, new_name)]
+        if z == 1:
+            renames += [(tbl.D, new_name + "-2"), (tbl.T, new_name + "-3")]
+        olds = [x.name for x, _ in renames]
+        for x, nm in renames:
+            x.name = nm
+        current = {e.name for e in tbl} | {tbl.D.name, tbl.T.name}
+        for (x, nm), old in zip(renames, olds):
+            run.count(key=("revised-name", label, z, repr(x)), nontrivial=True, tag="revised-table")
+            got = _look(lambda: tbl.name(nm))
+            if got[0] != "obj" or got[1] is not x or got[1].name != nm:
+                bad("after %r.name = %r in a private table, table.name(%r) %s" % (x, nm, nm, _says(got)), key=nm)
+            if old not in current:
+                got = _look(lambda: tbl.name(old))
+                if got[0] == "obj" and got[1].name != old:
+                    bad("after %r.name = %r in a private table, table.name(%r) %s: the name of the object is not the key"
+                        % (x, nm, old, _says(got)), key=old)
+                elif got[0] == "obj":
+                    bad("table.name(%r) %s although no atom of the table has that name" % (old, _says(got)), key=old)
+            # the public table keeps its own names
+            got = _look(lambda: public.name(old))
+            want = public[1][x.isotope] if hasattr(x, "isotope") else public[z]
+            if got[0] != "obj" or got[1] is not want:
+                bad("public table: name(%r) %s after a private table renamed its atom" % (old, _says(got)), key=old)
+        # oxidation states
+        el.ions = tuple(new_ions)
+        atoms = [el] + [el[a] for a in (el.isotopes[:1] + el.isotopes[-1:])]
+        fresh_a = (max(el.isotopes) + 1) if el.isotopes else z + 1
+        atoms.append(el.add_isotope(fresh_a))
+        for atom in atoms:
+            a = getattr(atom, "isotope", None)
+            for q in candidates:
+                run.count(key=("revised-ion", label, z, a, q, q in new_ions), nontrivial=True, tag="revised-table")
+                got = _look(lambda: atom.ion[q])
+                if q in new_ions:
+                    ok = got[0] == "obj" and getattr(got[1], "charge", None) == q and got[1].number == z and \
+                        getattr(got[1], "isotope", None) == a
+                    if not ok:
+                        bad("after %r.ions = %r in a private table, %r.ion[%d] %s" % (el, tuple(new_ions), atom, q, _says(got)),
+                            isotope=a, charge=q)
+                        continue
+                    x = got[1]
+                    if atom.ion[q] is not x or pickle.loads(pickle.dumps(x)) is not x or x.element is not atom:
+                        bad("after %r.ions = %r in a private table, %r.ion[%d] is not one object by every route"
+                            % (el, tuple(new_ions), atom, q), isotope=a, charge=q)
+                elif got[0] != "err":
+                    bad("after %r.ions = %r in a private table, %r.ion[%d] %s instead of raising"
+                        % (el, tuple(new_ions), atom, q, _says(got)), isotope=a, charge=q)
+    except Exception as e:  # noqa: nothing here may raise
+        bad("revised-table probe raised %s: %s" % (type(e).__name__, e))
+    return nbad
+
+
+def revised_tables(run: Run, pt, base):
+    """every element of a private table gets a revised name and revised oxidation states (some shipped charges
+    dropped, some new ones added; chosen with the run's rng), see `revise_one`"""
+    from periodictable import core, mass
+    _COUNTER[0] += 1
+    name = "c08-revised-%d" % _COUNTER[0]
+    tbl = core.PeriodicTable(name)
+    mass.init(tbl)
+    rng = run.rng
+    taken = {n for (n, _, _) in base.values()} | {"deuterium", "tritium"}
+    nbad = 0
+    try:
+        for z in sorted(base):
+            nm, sym, ions = base[z]
+            new_name = rng.choice([nm[::-1], nm + "ium", "element-%d" % z, nm.replace("um", "ium") + "-r", sym.lower() + "-" + nm])
+            if new_name in taken or new_name + "-2" in taken or new_name + "-3" in taken:
+                new_name = "element-%d" % z
+            taken.add(new_name)
+            pool = [q for q in range(-5, 11) if q != 0 and q not in ions]
+            keep = [q for q in ions if rng.random() < 0.5]
+            add = rng.sample(pool, rng.randint(1, 2))
+            new_ions = sorted(set(keep + add))
+            candidates = sorted(set(ions) | set(add) | {0, max(new_ions) + 1, min(new_ions) - 1, 9, -9})
+            if nbad < 3 * _CAP:
+                nbad += revise_one(run, tbl, pt.elements, z, new_name, new_ions, candidates)
+    finally:
+        core.PRIVATE_TABLES.pop(name, None)
+
+
 def run(run: Run) -> int:
     pt = import_repo()
     base = read_base()
@@ -825,6 +942,7 @@ def run(run: Run) -> int:
         run.exhaustive = True
         numeric_charges(run, pt, base, [("public", pt.elements), ("private", priv)])
         outside_model_keys(run, pt, base, [("public", pt.elements), ("private", priv)])
+        revised_tables(run, pt, base)
         n = 600 if run.tier == "quick" else 15000
         for lo in range(0, n, 500):
             batch = []
@@ -854,6 +972,18 @@ def replay(data) -> int:
             outside_model_keys(r, pt, base, [("public", pt.elements)])
             for x in r.violations[:5]:
                 print("ORACLE  :", x["what"], x["input"].get("got", ""))
+                rc = 1
+            continue
+        if v["input"].get("kind") == "revised-table":
+            from periodictable import core as _core, mass as _mass
+            r = Run("C08", "quick", 0)
+            _COUNTER[0] += 1
+            tb = _core.PeriodicTable("c08-replay-%d" % _COUNTER[0])
+            _mass.init(tb)
+            i = v["input"]
+            revise_one(r, tb, pt.elements, i["z"], i["new_name"], i["new_ions"], i["candidates"])
+            for x in r.violations[:5]:
+                print("ORACLE  :", x["what"])
                 rc = 1
             continue
         if v["input"].get("kind") in ("stale-pickle", "identity-over-time"):
